@@ -24,8 +24,9 @@ STD_CONFIG = {
 # productions that crash a backend today (known findings F2, F4, F5, F6, F8); checks other than C15
 # keep them out of that backend's workload so that one known crash does not cost them their coverage
 AVOID = {
+    "cpp": dict(cb_opt=False, cb_slices=False),      # F39 (directed probe in C09)
     "dart": dict(result_prim_err=True, opt_slices=False, byte_slices=False),
-    "kotlin": dict(opt_slices=False),
+    "kotlin": dict(opt_slices=False, cb_strs=False),      # string arguments of callbacks: diagnosed as unsupported by the Kotlin backend
 }
 
 
@@ -84,6 +85,14 @@ def write_program(prog, d, config_text=None, bodies=False):
     src = os.path.join(d, "lib.rs")
     with open(src, "w") as f:
         f.write(emit_rust.emit_program(prog, bodies=bodies))
+    for t in prog.types():
+        for a in t.attrs:
+            m = re.search(r'custom_func = "([^"]+)"', a)
+            if m:
+                fp = os.path.join(d, m.group(1))
+                os.makedirs(os.path.dirname(fp), exist_ok=True)
+                with open(fp, "w") as f:
+                    f.write("export default {\n  \"%s.custom\": { func: () => \"custom\", funcName: \"%s.custom\", parameters: [] }\n};\n" % (t.name, t.name))
     cfg = os.path.join(d, "config.toml")
     if config_text is not None:
         with open(cfg, "w") as f:
@@ -225,7 +234,8 @@ def add_traits(prog, rng, backend, n=(1, 2)):
     """For backends whose attr_support() declares `traits` (C and Kotlin today): 1-2 traits with 1-3 methods over primitives /
     enums / lifetime-free structs, and opaque methods that consume `impl Trait` (alone or next to other parameters).
     Returns the number of traits added."""
-    if not profiles.support(backend).get("traits"):
+    sup = profiles.support(backend)
+    if not sup.get("traits"):
         return 0
     opaques = [t for t in prog.types() if t.kind == "opaque" and not t.lifetimes]
     if not opaques:
@@ -241,14 +251,36 @@ def add_traits(prog, rng, backend, n=(1, 2)):
             args = []
             for a in range(rng.randint(0, 3)):
                 c = rng.random()
-                if c < 0.8 or not [e for e in enums if local(e)]:
+                if c < 0.55:
                     args.append("a%d: %s" % (a, rng.choice(TRAIT_PRIMS)))
-                else:
+                elif c < 0.65 and sup.get("option"):
+                    args.append("a%d: Option<%s>" % (a, rng.choice(TRAIT_PRIMS)))
+                elif c < 0.72:
+                    args.append("a%d: &[%s]" % (a, rng.choice(TRAIT_PRIMS)))
+                elif c < 0.8 and backend != "kotlin":      # Kotlin diagnoses string arguments of callbacks as unsupported
+                    args.append("a%d: %s" % (a, rng.choice(["&str", "&DiplomatStr", "&DiplomatStr16"])))
+                elif [e for e in enums if local(e)]:
                     args.append("a%d: %s" % (a, rng.choice([e for e in enums if local(e)]).name))
-            ret = "" if rng.random() < 0.3 else " -> " + rng.choice(TRAIT_PRIMS)
-            lines.append("        fn tm%d(&self%s)%s;" % (j, "".join(", " + a for a in args), ret))
+                else:
+                    args.append("a%d: %s" % (a, rng.choice(TRAIT_PRIMS)))
+            rc = rng.random()
+            if rc < 0.3:
+                ret = ""
+            elif rc < 0.45 and sup.get("option"):
+                ret = " -> Option<%s>" % rng.choice(TRAIT_PRIMS)
+            elif rc < 0.55 and [e for e in enums if local(e)]:
+                ret = " -> " + rng.choice([e for e in enums if local(e)]).name
+            else:
+                ret = " -> " + rng.choice(TRAIT_PRIMS)
+            lines.append("        fn tm%d(&%sself%s)%s;" % (j, "mut " if rng.random() < 0.2 else "", "".join(", " + a for a in args), ret))
         name = "VfTr%d%s" % (k, host.name)
-        mod.extra_src += "    pub trait %s {\n%s\n    }\n" % (name, "\n".join(lines))
+        # supertraits the backend declares it can honour, in every spelling that names std's marker traits
+        sups = []
+        if sup.get("traits_are_send") and rng.random() < 0.5:
+            sups.append(rng.choice(["Send", "std::marker::Send", "core::marker::Send"]))
+        if sup.get("traits_are_sync") and rng.random() < 0.4:
+            sups.append(rng.choice(["Sync", "std::marker::Sync", "core::marker::Sync"]))
+        mod.extra_src += "    pub trait %s%s {\n%s\n    }\n" % (name, (": " + " + ".join(sups)) if sups else "", "\n".join(lines))
         params = [("t", ("raw", "impl " + name))]
         if rng.random() < 0.5:
             params.insert(rng.randrange(2), ("n", ("prim", rng.choice(TRAIT_PRIMS))))
@@ -393,4 +425,35 @@ def add_docs(prog, rng, p_item=0.5):
         for m in t.methods:
             if rng.random() < p_item:
                 decorate(m.attrs)
+    return n
+
+
+def add_demo_attrs(prog, rng):
+    """#[diplomat::demo(...)] attributes (only demo_gen reads them): generate on methods, input(label / default_value) on struct fields,
+    custom_func on types, default_constructor on opaque constructors."""
+    n = 0
+    for t in prog.types():
+        if rng.random() < 0.3:
+            t.attrs.append('#[diplomat::demo(custom_func = "custom/%s.mjs")]' % t.name.lower())
+            n += 1
+        if t.kind in ("struct",):
+            for fn, ft in t.fields:
+                if rng.random() < 0.4:
+                    dv = rng.choice(['"7"', '"1000"', '"true"', '"text with \\"quotes\\""'])
+                    t.field_attrs.setdefault(fn, []).append('#[diplomat::demo(input(label = "Field %s (%%)", default_value = %s))]' % (fn, dv))
+                    n += 1
+        for m in t.methods:
+            if m.name == "make" and not any("default_constructor" in a for a in m.attrs) and rng.random() < 0.7:
+                m.attrs.append("#[diplomat::demo(default_constructor)]")
+                n += 1
+            elif rng.random() < 0.3:
+                m.attrs.append("#[diplomat::demo(generate)]")
+                n += 1
+            for pn, pt in m.params:
+                if pt[0] in ("prim", "enum", "str", "slice", "struct") and rng.random() < 0.3:
+                    if not hasattr(m, "param_attrs"):
+                        m.param_attrs = {}
+                    what = rng.choice(['input(label = "Param %s")' % pn, 'input(label = "P %s", default_value = "3")' % pn, "external", 'input(default_value = "0")'])
+                    m.param_attrs.setdefault(pn, []).append("#[diplomat::demo(%s)]" % what)
+                    n += 1
     return n
